@@ -160,6 +160,12 @@ fn add_bystander(ms: &mut ModuleSet, n: usize) {
     by.items.push(raw("SignalColor ::= ENUMERATED { zq-amber , zq-red }", "clash-enum"));
     by.items.push(raw("ElemType ::= OCTET STRING", "clash-type"));
     by.items.push(raw("upper-dummy INTEGER ::= 99", "clash-value"));
+    // information objects live in their own module too: the types of a bystander's class fields
+    // are nobody else's imports
+    by.items.push(raw("Zb-ErrCode ::= INTEGER ( 0 .. 99 )", "field-type"));
+    by.items.push(raw("ZB-ERR ::= CLASS { &code Zb-ErrCode UNIQUE , &Type } WITH SYNTAX { CODE &code TYPE &Type }", "class"));
+    by.items.push(raw("zb-err-one ZB-ERR ::= { CODE 1 TYPE BOOLEAN }", "object"));
+    by.items.push(raw("Zb-Errors ZB-ERR ::= { zb-err-one }", "object-set"));
     ms.modules.push(by);
 }
 
